@@ -311,6 +311,79 @@ class StorageRoundTrip(Contract):
         return None
 
 
+class OtherValuesRoundTrip(Contract):
+    """Bounded stand-in for the remaining value kinds of the property: comments, attached files
+    (byte blobs) and metadata dictionaries read back equal to what was written."""
+    target = "geoh5py/io/h5_writer.py::H5Writer.write_data_values"
+    variant = "comments-files-metadata"
+    symbolic = False
+    has_native = True
+    props = ("C08",)
+    bounded_scope = "comments (ASCII, accented, astral, empty author), byte blobs (empty, all 256 byte values, 10 kB pseudo-random), metadata dictionaries (nested dicts and lists, Unicode keys and values, numbers, booleans, None) on points and groups"
+
+    def native_cases(self, tier, rng):
+        for texts in (["first"], ["un café", "日本語 𝔘", ""], ["a" * 300, "line\nbreak"]):
+            yield {"kind": "comments", "texts": texts}
+        yield {"kind": "file", "blob": "empty"}
+        yield {"kind": "file", "blob": "all-bytes"}
+        yield {"kind": "file", "blob": "random"}
+        for md in ({"k": "v"}, {"niveau": {"clé": ["é", 1, 2.5, True, None], "deep": {"x": {"y": [1, [2, 3]]}}}, "n": 0, "f": -1.5e-30}, {"": "", "empty": {}, "list": []}):
+            yield {"kind": "metadata", "value": md}
+
+    def native_check(self, case):
+        from geoh5py.groups import ContainerGroup
+        from geoh5py.objects import Points
+        from geoh5py.workspace import Workspace
+
+        d = tempfile.mkdtemp()
+        path = os.path.join(d, "o.geoh5")
+        try:
+            if case["kind"] == "comments":
+                with Workspace.create(path) as ws:
+                    p = Points.create(ws, vertices=np.zeros((2, 3)), name="p")
+                    for i, t in enumerate(case["texts"]):
+                        p.add_comment(t, author=f"auteur {i}" if i else "")
+                with Workspace(path, mode="r") as ws:
+                    vals = ws.get_entity("p")[0].comments.values
+                got = [c["Text"] for c in vals]
+                if got != case["texts"]:
+                    return f"comments {case['texts']} read back as {got}"
+                return None
+            if case["kind"] == "file":
+                rng = np.random.RandomState(3)
+                blob = {"empty": b"", "all-bytes": bytes(range(256)) * 3, "random": rng.bytes(10000)}[case["blob"]]
+                src = os.path.join(d, "blob.bin")
+                with open(src, "wb") as fh:
+                    fh.write(blob)
+                with Workspace.create(path) as ws:
+                    g = ContainerGroup.create(ws, name="g")
+                    try:
+                        g.add_file(src)
+                    except Exception as exc:
+                        return None if not blob else f"attaching a {len(blob)}-byte file raised {type(exc).__name__}: {exc}"
+                with Workspace(path, mode="r") as ws:
+                    kids = [c for c in ws.get_entity("g")[0].children if type(c).__name__ == "FilenameData"]
+                    back = None if not kids else kids[0].values
+                    name = None if not kids else kids[0].file_name
+                if back is None or bytes(back) != blob or name != "blob.bin":
+                    return f"attached file of {len(blob)} bytes read back as {None if back is None else len(bytes(back))} bytes (name {name!r})"
+                return None
+            md = case["value"]
+            with Workspace.create(path) as ws:
+                p = Points.create(ws, vertices=np.zeros((2, 3)), name="p")
+                p.metadata = md
+                g = ContainerGroup.create(ws, name="g")
+                g.metadata = md
+            with Workspace(path, mode="r") as ws:
+                for nm in ("p", "g"):
+                    back = ws.get_entity(nm)[0].metadata
+                    if back != md:
+                        return f"metadata of {nm}: wrote {md!r}, read back {back!r}"
+        finally:
+            shutil.rmtree(d, ignore_errors=True)
+        return None
+
+
 class PaddingRoundTrip(Contract):
     """Bounded stand-in: vertex data shorter than the geometry are padded with the class's no-data
     marker (NaN -> stored float code; the integer code for integer data) whatever the NumPy dtype
@@ -369,4 +442,4 @@ class PaddingRoundTrip(Contract):
         return None
 
 
-CONTRACTS = [IntegerFormatType, BooleanFormatType, FormatValuesLength, StorageRoundTrip, PaddingRoundTrip]
+CONTRACTS = [IntegerFormatType, BooleanFormatType, FormatValuesLength, StorageRoundTrip, OtherValuesRoundTrip, PaddingRoundTrip]
